@@ -96,6 +96,10 @@ func debugCmd(mode string, args []string) {
 			if r.O.Canary {
 				if r.R.Status == "unsat" {
 					fmt.Printf("    CANARY %s: exit proved unreachable (vacuous?)\n", r.O.ID)
+					if *dump != "" {
+						os.MkdirAll(*dump, 0o755)
+						os.WriteFile(*dump+"/"+smt.Sanitize(r.O.ID)+".smt2", []byte(r.Query), 0o644)
+					}
 				}
 				continue
 			}
